@@ -161,12 +161,13 @@ def end_to_end(ctx, thorough, bind=""):
         collide = (srcs[0], 300, other, cb[1])
     ctx.extra["e2e_colliding_pair" + ("_v4" if bind else "")] = list(collide) if collide else None
     try:
-        cycles = (7 if thorough else 4) if not bind else (5 if thorough else 3)
+        cycles = (7 if thorough else 5) if not bind else (5 if thorough else 3)
         for cyc in range(cycles):
-            corrupt = (cyc in (3, 6)) if not bind else (cyc == 3)
+            corrupt = (cyc in (4, 6)) if not bind else (cyc == 3)
             # a run in which no new (exporter, template id) pair is learnt: the exporters only announce the templates they have
             # with another definition ("reconfigured"), and data; what is saved at its end must be these definitions
-            redefine = cyc in (1, 4)
+            redefine = cyc in (1, 2, 5)
+            scope_only = cyc == 2      # ... and one in which the only change is the scope field of the options templates
             if corrupt:
                 # an older, much longer file (here: unparsable) is in place: the collector starts with a fresh cache, and the
                 # shorter document it saves at shutdown must replace it completely
@@ -264,7 +265,7 @@ def end_to_end(ctx, thorough, bind=""):
                     # template back in the next run; the other one's template sits behind it, in memory and in the file
                     todo += [(collide[0], collide[1], 1), (collide[2], collide[3], 2)]
                 if redefine and acked[proto]:
-                    todo = [(src, tid, [1, 2, 3][v % 3] if not (collide and (src, tid) == collide[:2]) else 0) for (src, tid, v) in acked[proto]]
+                    todo = [(src, tid, ({1: 1, 2: 2, 3: 4, 4: 5, 5: 3} if scope_only else {1: 2, 2: 3, 3: 4, 4: 5, 5: 1})[v] if not (collide and (src, tid) == collide[:2] and not scope_only) else 0) for (src, tid, v) in acked[proto]]   # (3 -> 4 -> 5: options templates that differ in their scope field only)
                 for (src, tid, v) in todo:      # plain templates and an options template
                     base = col.stats()[name]
                     senders.send(src, col.ports[proto], c04.tpl_msg(gp, tid, v))
